@@ -1397,15 +1397,18 @@ def lib_vmap(ex, args, kwargs, pc):
     """vmap of an opaque per-point residual: the result at row i is an uninterpreted function of the row (and of nothing
     else: loss / network / parameters are fixed during one refinement step)"""
     f = args[0]
-    res = fresh_fun("residual", z3.IntSort(), z3.RealSort())
-    rank = getattr(ex, "residual_rank", 1)
+    cols = getattr(ex, "residual_cols", None)      # None: scalar residual per row (rank 1); k: (rows, k) residual vectors
+    if cols is None:
+        res = fresh_fun("residual", z3.IntSort(), z3.RealSort())
+    else:
+        res = fresh_fun("residual", z3.IntSort(), z3.IntSort(), z3.RealSort())
 
     def mapped(ex_, a, k, pc_):
         rows = a[0].shape[0]
         ex_.residuals = getattr(ex_, "residuals", []) + [(res, a)]
-        if rank == 1:
+        if cols is None:
             return SArr((rows,), lambda i: res(zint(i)), "real")
-        return SArr((rows, 1), lambda i, c: res(zint(i)), "real")
+        return SArr((rows, cols), lambda i, c: res(zint(i), zint(c)), "real")
     return mapped
 
 
@@ -1437,11 +1440,36 @@ def lib_unravel_index(ex, args, kwargs, pc):
 
 
 def lib_norm(ex, args, kwargs, pc):
+    """jnp.linalg.norm(a, axis=-1) of a (rows, k) array with concrete k: the Euclidean norm N(i) >= 0 with
+    N(i)^2 == sum_c a[i, c]^2 (axioms recorded in ex.norms, instantiated by the contract at the rows it talks about)"""
     a = args[0]
-    if len(a.shape) == 2:
-        # norm over the last axis of a (rows, 1) residual: |r|
-        return SArr((a.shape[0],), lambda i: z3.If(zreal(a.elem(i, 0)) >= 0, zreal(a.elem(i, 0)), -zreal(a.elem(i, 0))), "real")
-    raise Unsupported("norm of this shape")
+    axis = kwargs.get("axis", args[1] if len(args) > 1 else None)
+    if len(a.shape) == 2 and axis in (-1, 1) and concrete(a.shape[1]):
+        k = int(a.shape[1])
+        if k == 1:
+            return SArr((a.shape[0],), lambda i: z3.If(zreal(a.elem(i, 0)) >= 0, zreal(a.elem(i, 0)), -zreal(a.elem(i, 0))), "real")
+        N = fresh_fun("norm", z3.IntSort(), z3.RealSort())
+        ex.norms = getattr(ex, "norms", []) + [(N, a, k)]
+        return SArr((a.shape[0],), lambda i: N(zint(i)), "real")
+    raise Unsupported("norm of this shape / axis")
+
+
+def norm_axioms(ex, points):
+    ax = []
+    for (N, a, k) in getattr(ex, "norms", []):
+        for pt in points:
+            ax.append(z3.And(N(zint(pt)) >= 0, N(zint(pt)) * N(zint(pt)) == sum((zreal(a.elem(pt, c)) * zreal(a.elem(pt, c)) for c in range(k)), z3.RealVal(0))))
+    return ax
+
+
+def lib_sum(ex, args, kwargs, pc):
+    """jnp.sum over the last axis of an array whose last extent is concrete"""
+    a = args[0]
+    axis = kwargs.get("axis", args[1] if len(args) > 1 else None)
+    if isinstance(a, SArr) and len(a.shape) >= 1 and axis in (-1, len(a.shape) - 1) and concrete(a.shape[-1]):
+        k = int(a.shape[-1])
+        return SArr(tuple(a.shape[:-1]), lambda *i: sum((zreal(a.elem(*i, c)) for c in range(k)), z3.RealVal(0)), "real")
+    raise Unsupported("jnp.sum of this shape / axis")
 
 
 def lib_fori_loop(ex, args, kwargs, pc):
@@ -1670,6 +1698,7 @@ LIB = {
     "jax.lax.top_k": lib_top_k,
     "jnp.unravel_index": lib_unravel_index,
     "jnp.linalg.norm": lib_norm,
+    "jnp.sum": lib_sum,
     "jax.lax.fori_loop": lib_fori_loop,
     "jax.tree_util.tree_map": lib_tree_map,
     "jax.tree_util.tree_structure": lib_tree_structure,
